@@ -197,7 +197,11 @@ def table_mismatch(real_table, ref_table):
     real_table: {name: (present, value_py)}; ref_table: {name: (present, value)}"""
     conds = []
     notes = []
-    names = set(k for k in real_table if not k.startswith('SV_COV_')) | set(ref_table)
+    # the predefined SV_COV_* constants are left aside (the implementation re-installs them) unless the program redefined one
+    def _builtin(n):
+        v = ref_table.get(n)
+        return v is not None and isinstance(v[1], dict) and v[1].get('src') == 'builtin'
+    names = set(k for k in real_table if not k.startswith('SV_COV_')) | set(k for k in ref_table if not _builtin(k))
     for n in sorted(names):
         rp = real_table.get(n, (False, None))[0]
         fp = ref_table.get(n, (False, None))[0]
